@@ -118,7 +118,20 @@ def git_rev(path):
 # ---------------------------------------------------------------------------------------------
 
 
-def _worker(args):
+def _worker_entry(args, conn, progress_path):
+    try:
+        agg = _worker(args, progress_path)
+        conn.send(agg)
+    except BaseException as exc:  # noqa: BLE001
+        try:
+            conn.send({"fatal": repr(exc), "trace": traceback.format_exc()[-3000:]})
+        except Exception:  # noqa: BLE001
+            pass
+    finally:
+        conn.close()
+
+
+def _worker(args, progress_path=None):
     (modname, base_seed, widx, deadline, tier, per_scenario_limit, opts) = args
     import importlib
     import logging
@@ -153,6 +166,9 @@ def _worker(args):
     while time.time() < deadline:
         seed = derive_seed(base_seed, mod.PROPERTY, widx, i)
         i += 1
+        if progress_path is not None:
+            with open(progress_path, "w") as fh:
+                fh.write(str(seed))
         faulthandler.dump_traceback_later(per_scenario_limit, exit=True)
         try:
             scenario = mod.gen_scenario(seed, tier, opts)
@@ -321,13 +337,46 @@ def run_check(mod, tier="quick", seed=None, budget=None, workers=None, opts=None
     ]
     aggs = []
     harness_failures = []
-    with concurrent.futures.ProcessPoolExecutor(max_workers=workers, mp_context=ctx) as pool:
-        futs = [pool.submit(_worker, j) for j in jobs]
-        for f in futs:
+    procs = []
+    pdir = f"/dev/shm/verif-progress-{os.getpid()}"
+    os.makedirs(pdir, exist_ok=True)
+    for w, job in enumerate(jobs):
+        parent_conn, child_conn = ctx.Pipe(duplex=False)
+        ppath = os.path.join(pdir, f"w{w}")
+        p = ctx.Process(target=_worker_entry, args=(job, child_conn, ppath), daemon=True)
+        p.start()
+        child_conn.close()
+        procs.append((p, parent_conn, ppath))
+    hard_deadline = deadline + per_scenario_limit + 60
+    for p, conn, ppath in procs:
+        got = None
+        try:
+            while time.time() < hard_deadline:
+                if conn.poll(0.2):
+                    got = conn.recv()
+                    break
+                if not p.is_alive() and not conn.poll(0.05):
+                    break
+        except (EOFError, OSError):
+            got = None
+        if got is None:
+            cur = "?"
             try:
-                aggs.append(f.result(timeout=budget + per_scenario_limit + 60))
-            except Exception as exc:  # noqa: BLE001
-                harness_failures.append(repr(exc))
+                with open(ppath) as fh:
+                    cur = fh.read().strip()
+            except OSError:
+                pass
+            harness_failures.append(
+                f"worker died or timed out (exitcode={p.exitcode}) while running scenario seed {cur}"
+            )
+            if p.is_alive():
+                p.kill()
+        elif "fatal" in got:
+            harness_failures.append({"seed": "?", "error": got["fatal"], "trace": got["trace"]})
+        else:
+            aggs.append(got)
+        p.join(timeout=5)
+    shutil.rmtree(pdir, ignore_errors=True)
     total = {
         "evaluations": 0,
         "scenarios": 0,
